@@ -200,35 +200,90 @@ macro_rules! elems {
     };
 }
 
+// NOTE: the per-(E, N) case lists are generic functions, and the macros below expand to plain calls:
+// expanding thousands of closures inline into one `run` function made MIR borrow checking take minutes.
+fn lengthen_cases<E: Elem, N>(ctx: &mut Ctx)
+where
+    N: ArrayLength + Add<B1>,
+    Add1<N>: ArrayLength + Sub<B1, Output = N>,
+    Sub1<Add1<N>>: ArrayLength,
+{
+    if N::USIZE <= crate::maxn() {
+        ctx.case(&format!("C09;lengthen-shorten;N={};E={}", N::USIZE, E::NAME), || lengthen::<E, N>());
+    }
+}
+fn split_cases<E: Elem, N, K>(ctx: &mut Ctx)
+where
+    N: ArrayLength + Sub<K>,
+    K: ArrayLength,
+    Diff<N, K>: ArrayLength,
+{
+    if N::USIZE > crate::maxn() {
+        return;
+    }
+    for form in 0u8..3 {
+        ctx.case(&format!("C09;split-{};N={};K={};E={}", ["owned", "ref", "mut"][form as usize], N::USIZE, K::USIZE, E::NAME), || split::<E, N, K>(form));
+    }
+}
+fn concat_cases<E: Elem, N, M>(ctx: &mut Ctx)
+where
+    N: ArrayLength + Add<M>,
+    M: ArrayLength,
+    Sum<N, M>: ArrayLength,
+{
+    if N::USIZE + M::USIZE <= crate::maxn() {
+        ctx.case(&format!("C09;concat;N={};M={};E={}", N::USIZE, M::USIZE, E::NAME), || concat::<E, N, M>());
+    }
+}
+fn remove_cases<E: Elem, N>(ctx: &mut Ctx)
+where
+    N: ArrayLength + Sub<B1>,
+    Sub1<N>: ArrayLength,
+{
+    let n = N::USIZE;
+    if n > crate::maxn() {
+        return;
+    }
+    // every index for N <= 100; above that both ends, the eighths/quarters/thirds/half with their neighbours
+    let idxs: Vec<usize> = if n <= 100 {
+        let mut v: Vec<usize> = (0..=n + 1).collect();
+        v.push(usize::MAX);
+        v
+    } else {
+        let mut v = vec![0, 1, 2, 3, 4, 7, 8, 9, n / 8, n / 4 - 1, n / 4, n / 4 + 1, n / 3, n / 2 - 1, n / 2, n / 2 + 1, 2 * n / 3, 3 * n / 4 - 1, 3 * n / 4, 3 * n / 4 + 1, n - 4, n - 3, n - 2, n - 1, n, n + 1, usize::MAX];
+        v.sort();
+        v.dedup();
+        v
+    };
+    for swap in [false, true] {
+        for &i in &idxs {
+            let nm = if swap { "swap_remove" } else { "remove" };
+            ctx.case(&format!("C09;{nm};N={n};i={i};E={}", E::NAME), || remove::<E, N>(swap, false, i));
+            if i < n {
+                ctx.case(&format!("C09;{nm}_unchecked;N={n};i={i};E={}", E::NAME), || remove::<E, N>(swap, true, i));
+            }
+        }
+    }
+}
+
 macro_rules! m_lengthen {
     ($E:ty, $ctx:expr, $n:ty) => {
-        $ctx.case(&format!("C09;lengthen-shorten;N={};E={}", <$n>::USIZE, <$E as Elem>::NAME), || lengthen::<$E, $n>());
+        lengthen_cases::<$E, $n>($ctx);
     };
 }
 macro_rules! m_split {
     ($E:ty, $ctx:expr, $n:ty, $k:ty) => {
-        for form in 0u8..3 {
-            $ctx.case(&format!("C09;split-{};N={};K={};E={}", ["owned", "ref", "mut"][form as usize], <$n>::USIZE, <$k>::USIZE, <$E as Elem>::NAME), || split::<$E, $n, $k>(form));
-        }
+        split_cases::<$E, $n, $k>($ctx);
     };
 }
 macro_rules! m_concat {
     ($E:ty, $ctx:expr, $n:ty, $m:ty) => {
-        $ctx.case(&format!("C09;concat;N={};M={};E={}", <$n>::USIZE, <$m>::USIZE, <$E as Elem>::NAME), || concat::<$E, $n, $m>());
+        concat_cases::<$E, $n, $m>($ctx);
     };
 }
 macro_rules! m_remove {
     ($E:ty, $ctx:expr, $n:ty) => {
-        let n = <$n>::USIZE;
-        let idxs: Vec<usize> = if n <= 8 { let mut v: Vec<usize> = (0..=n + 1).collect(); v.push(usize::MAX); v } else { let mut v = vec![0, 1, n / 2, n - 2, n - 1, n, n + 1, usize::MAX]; v.sort(); v.dedup(); v };
-        for swap in [false, true] {
-            for &i in &idxs {
-                $ctx.case(&format!("C09;{};N={n};i={i};E={}", if swap { "swap_remove" } else { "remove" }, <$E as Elem>::NAME), || remove::<$E, $n>(swap, false, i));
-                if i < n {
-                    $ctx.case(&format!("C09;{}_unchecked;N={n};i={i};E={}", if swap { "swap_remove" } else { "remove" }, <$E as Elem>::NAME), || remove::<$E, $n>(swap, true, i));
-                }
-            }
-        }
+        remove_cases::<$E, $n>($ctx);
     };
 }
 
@@ -271,7 +326,7 @@ pub fn run(ctx: &mut Ctx) {
     each!(m_remove, ctx, [U1, U2, U3, U4, U5, U6, U7, U8]);
     // boundary and large lengths, position lattice {0, 1, N/2, N-1, N}
     each!(m_lengthen, ctx, [U15, U16, U17, U31, U32, U33, U63, U64, U100, U255, U256, U1023, U1024]);
-    each!(m_remove, ctx, [U16, U17, U32, U33, U64, U100, U256, U1024]);
+    each!(m_remove, ctx, [U9, U10, U11, U12, U13, U15, U16, U17, U24, U32, U33, U64, U100, U256, U1024]);
     macro_rules! edge_split {
         ($n:ty, $half:ty, $pred:ty) => {
             split_pair!(ctx, $n, U0);
